@@ -37,6 +37,29 @@ def post_C08(stats, tier):
     return out
 
 
+def post_C11(stats, tier):
+    """global count identity: a resolution with N cells has exactly 2N-4 distinct vertexes. Every vertex index names exactly one cell
+    (its owner bits); the monitor counts, per cell, the slots whose index names that cell. Since the three cells around a corner are
+    checked to produce one identical index, the sum over all cells is the number of distinct vertexes."""
+    out = []
+    for res in range(16):
+        k = "wholecells.res%02d" % res
+        if k not in stats:
+            continue
+        n = stats[k]
+        N = 2 + 120 * 7 ** res
+        if n != N:
+            # polar cells below coordinate resolution are undecided only at res >= 14; here every cell must have been judged
+            out.append({"kind": "count-incomplete", "fn": "cellToVertexes", "key": "vcount%02d" % res, "detail": "res %d: %d of %d cells judged" % (res, n, N)})
+            continue
+        got = stats.get("owned.res%02d" % res, 0)
+        stats["distinct_vertexes.res%02d" % res] = got
+        if got != 2 * N - 4:
+            out.append({"kind": "vertex-count", "fn": "cellToVertexes", "key": "vcount%02d" % res,
+                        "detail": "res %d: %d distinct vertex indexes over %d cells, expected 2N-4 = %d" % (res, got, N, 2 * N - 4)})
+    return out
+
+
 PROPS = {
     "C01": {
         "sources": KIT + ["mon_C01.c"],
@@ -167,6 +190,41 @@ PROPS = {
         "exhaustive": True,
         "exhaustive_note": "all ordered pairs at res 0-1 (and res 2 in the thorough tier); balls elsewhere",
         "assumptions": ["geometric adjacency is the neighbour relation of the statement (validated by C08)"],
+    },
+    "C10": {
+        "sources": KIT + ["mon_C10.c"],
+        "phases": simple("mon_C10.c"),
+        "level": "exploration",
+        "level_text": "For every cell of res 0-4 (quick) / 0-5 (thorough), the 3-disks of all pentagons and 1-disks of seam/pole/antimeridian seeds at all finer resolutions, and random cells: each geometric neighbour must give a "
+                      "valid edge that decodes back, originToDirectedEdges must be exactly that set, distance-2 cells / the cell itself / non-adjacent siblings must give E_NOT_NEIGHBORS, directedEdgeToBoundary must equal the "
+                      "geometrically shared stretch of the two cell boundaries (2 or 3 points, 1e-12 rad) and the reverse edge the same points reversed, edge lengths = long-double great-circle length. isValidDirectedEdge is "
+                      "compared with the documented form on millions of hostile candidates over all 8 direction values. ASan+UBSan.",
+        "level_note": "Trusted base: geometric adjacency, segment matching and ref_is_valid_edge (vf_kit.c).",
+        "technique": "runtime monitoring: geometric reference (adjacency, shared boundary stretch, arc length) and documentation-derived edge predicate, under ASan/UBSan",
+        "evaluations": ["cells", "candidates"],
+        "rule": "cases: one origin cell with all its geometric neighbours, its 2-ball and its siblings; one 64-bit candidate edge index. Non-trivial = every origin cell; distinct by cell. 'edges' counts directed edges judged.",
+        "require": {"cells": 300000, "edges": 1800000, "non_neighbour_pairs": 1000000, "candidates": 1000000, "candidates.valid": 10000, "edges.three_point": 1000, "special.cells": 3000},
+        "exhaustive": True,
+        "exhaustive_note": "all cells of res 0-4 (quick) / 0-5 (thorough)",
+        "assumptions": ["geometric adjacency is the neighbour relation of the statement (validated by C08)"],
+    },
+    "C11": {
+        "sources": KIT + ["mon_C11.c"],
+        "phases": simple("mon_C11.c"),
+        "post": post_C11,
+        "level": "exploration",
+        "level_text": "Corners are found geometrically (boundary vertices coinciding with vertices of exactly two other cells); for every cell of res 0-4 (quick) / 0-5 (thorough), pentagon 3-disks and seam seeds at all finer "
+                      "resolutions and random cells: six (five + null) distinct valid indexes, cellToVertex(i) = slot i, vertexToLatLng on the i-th corner (1e-12 rad), the identical index produced by the two other cells of the "
+                      "corner, its cell bits naming one of the three, the alias through each non-owner cell rejected by isValidVertex, out-of-range vertex numbers -> E_DOMAIN, neighbours <=> exactly two shared indexes over the "
+                      "2-ball, and the global identity 2N-4 per complete resolution. isValidVertex on millions of hostile mode-4 candidates must accept only the canonical form. ASan+UBSan.",
+        "level_note": "Trusted base: geometric corner detection and adjacency (vf_kit.c). 'Canonical form' for hostile candidates is the index the owner cell itself lists at that slot, which the per-cell monitor ties to the geometry.",
+        "technique": "runtime monitoring: geometric corner oracle (three-cell incidence), alias rejection and global count identity, under ASan/UBSan",
+        "evaluations": ["cells", "candidates"],
+        "rule": "cases: one cell with all its corners and its 2-ball; one 64-bit candidate vertex index. Non-trivial = every judged cell; distinct by cell. 'corners' counts (cell, vertex number) pairs judged.",
+        "require": {"cells": 300000, "corners": 1800000, "candidates": 1000000, "candidates.valid": 1000, "shared.pairs": 1000000, "special.cells": 3000, "range.calls": 100000},
+        "exhaustive": True,
+        "exhaustive_note": "all cells of res 0-4 (quick) / 0-5 (thorough) incl. the 2N-4 identity",
+        "assumptions": ["boundary vertices coincide within 1e-12 rad between adjacent cells (C08)"],
     },
     "C13": {
         "sources": KIT + ["mon_C13.c"],
